@@ -274,8 +274,8 @@ func tamper(base string, ch *chain, cs Case) (layout, links string, keyFiles []s
 		gen.EditJSONFile(path, func(doc map[string]any) {
 			if _, isEnv := doc["payloadType"]; isEnv {
 				gen.EditDSSEPayload(doc, f)
-			} else {
-				f(doc["signed"].(map[string]any))
+			} else if signed, ok := doc["signed"].(map[string]any); ok {
+				f(signed)
 			}
 		})
 	}
@@ -306,9 +306,17 @@ func tamper(base string, ch *chain, cs Case) (layout, links string, keyFiles []s
 		accept = false
 	case "link-digest-edited":
 		editPayload(lastLink, func(p map[string]any) {
-			for _, v := range p["products"].(map[string]any) {
-				h := v.(map[string]any)
-				d := []byte(h["sha256"].(string))
+			prods, _ := p["products"].(map[string]any) // (a file that is no link of the step has nothing to edit)
+			for _, v := range prods {
+				h, ok := v.(map[string]any)
+				if !ok {
+					continue
+				}
+				ds, _ := h["sha256"].(string)
+				if ds == "" {
+					continue
+				}
+				d := []byte(ds)
 				if d[0] == 'a' {
 					d[0] = 'b'
 				} else {
